@@ -204,6 +204,64 @@ impl Stats {
         }
     }
 
+    pub fn absorb_c(&mut self, plan: &Plan, ch: &crate::worldc::CHistory) {
+        self.runs += 1;
+        *self.ends.entry(format!("{:?}", ch.end.unwrap_or(RunEnd::Finished))).or_insert(0) += 1;
+        self.sim_ns += u128::from(ch.stats.max_clock_ns);
+        self.events += ch.input.len() as u64;
+        self.attempts += ch.shape.attempts as u64;
+        self.bump("slow_writer_pending", ch.slow_pendings);
+        self.bump("parser_error", ch.shape.parse_errors as u64);
+        self.bump("failed_attempt", ch.shape.failed_attempts as u64);
+        self.bump("skipped_attempt", ch.shape.skipped_attempts as u64);
+        self.bump("retried_attempt", ch.shape.retried_attempts as u64);
+        self.bump("hook_failure", ch.shape.hook_failures as u64);
+        self.bump("spurious_root_poll", ch.stats.spurious_polls);
+        self.bump("batched_wakeups", ch.stats.batched_fires);
+        self.bump(&format!("stack:{}", ch.stack), 1);
+        // interleaving measure: hash of the input's (kind, scenario) sequence; non-trivial iff
+        // two attempts are open at once somewhere in the input or a failure/skip/error occurs
+        let mut hsh = core::FNV_INIT;
+        let mut open = 0u64;
+        let mut max_open = 0u64;
+        for e in &ch.input {
+            core::fnv(&mut hsh, e.k.tag().as_bytes());
+            if let Some(s) = &e.scenario {
+                core::fnv(&mut hsh, s.as_bytes());
+            }
+            match e.k {
+                K::ScStarted => {
+                    open += 1;
+                    max_open = max_open.max(open);
+                }
+                K::ScFinished => open = open.saturating_sub(1),
+                _ => {}
+            }
+        }
+        core::fnv(&mut hsh, ch.stack.as_bytes());
+        self.max_in_flight = self.max_in_flight.max(max_open);
+        if max_open >= 2 {
+            self.overlapped_runs += 1;
+        }
+        let faulty = ch.shape.failed_attempts + ch.shape.skipped_attempts + ch.shape.parse_errors + ch.shape.hook_failures > 0;
+        if max_open >= 2 || faulty || ch.slow_pendings > 0 {
+            self.nontrivial_hashes.insert(hsh);
+        } else {
+            self.trivial_runs += 1;
+        }
+        self.states.insert(format!("stack={} open={} slow={}", ch.stack, max_open.min(8), ch.slow_pendings > 0));
+        if self.samples.len() < 3 && ch.input.len() > 8 {
+            let trace: Vec<String> = ch.input.iter().take(50).map(crate::record::Ev::short).collect();
+            self.samples.push(serde_json::json!({
+                "plan_seed": plan.seed,
+                "stack": ch.stack,
+                "shape": ch.shape,
+                "numbers": ch.numbers,
+                "first_input_events": trace,
+            }));
+        }
+    }
+
     pub fn merge(&mut self, o: Stats) {
         self.runs += o.runs;
         for (k, v) in o.ends {
@@ -239,13 +297,64 @@ pub fn world_of(prop: &str) -> char {
     match prop {
         "C02" | "C03" | "C04" | "C05" | "C06" | "C07" | "C08" | "C09" | "C10" | "C20" => 'A',
         "C01" | "C14" => 'B',
+        "C11" | "C12" | "C13" => 'C',
         _ => 'C',
     }
 }
 
 pub struct Executed {
     pub violations: Vec<Violation>,
-    pub history: History,
+    pub history: Option<History>,
+    pub chistory: Option<crate::worldc::CHistory>,
+}
+
+impl Executed {
+    pub fn digest(&self) -> u64 {
+        match (&self.history, &self.chistory) {
+            (Some(h), _) => h.digest(),
+            (_, Some(c)) => c.digest(),
+            _ => 0,
+        }
+    }
+}
+
+/// Chooses the writer stack and slow-writer knobs of a writer-world plan.
+pub fn decorate_for_world_c(prop: &str, plan: &mut Plan) {
+    let mut r = crate::core::Rng::new(plan.seed ^ 0xC0FFEE);
+    let stacks: &[&str] = match prop {
+        "C11" => crate::worldc::STACKS_C11,
+        "C12" => crate::worldc::STACKS_C12,
+        _ => crate::worldc::STACKS_C13,
+    };
+    plan.writer.stack = r.below(stacks.len() as u64) as u32;
+    plan.writer.slow_pm = *r.pick(&[0u32, 0, 100, 400]);
+    plan.writer.sink_seed = r.next_u64();
+    // C13 wrappers are per-event: a third of the runs feed them arbitrary (non-abiding) streams
+    plan.writer.verbosity = u8::from(prop == "C13" && r.chance(1, 3));
+}
+
+pub fn stack_name(prop: &str, plan: &Plan) -> String {
+    let stacks: &[&str] = match prop {
+        "C11" => crate::worldc::STACKS_C11,
+        "C12" => crate::worldc::STACKS_C12,
+        _ => crate::worldc::STACKS_C13,
+    };
+    let base = stacks[(plan.writer.stack as usize) % stacks.len()];
+    if prop == "C13" && plan.writer.verbosity == 1 && !base.contains("tee_of_fos") { format!("x_{base}") } else { base.to_owned() }
+}
+
+/// Runs `plan` in world C and evaluates `prop`'s oracle.
+pub fn execute_c(prop: &str, plan: &Rc<Plan>) -> Result<Executed, String> {
+    let which = stack_name(prop, plan);
+    let ch = crate::worldc::run_world_c(plan, &which)?;
+    let mut v = Vec::new();
+    match prop {
+        "C11" => crate::worldc::c11(&ch, &mut v),
+        "C12" => crate::worldc::c12(&ch, &mut v),
+        "C13" => crate::worldc::c13(plan, &ch, &mut v),
+        _ => return Err(format!("harness: {prop} is not a world-C property")),
+    }
+    Ok(Executed { violations: v, history: None, chistory: Some(ch) })
 }
 
 /// Runs `plan` in world A and evaluates `prop`'s oracle.
@@ -273,7 +382,7 @@ pub fn execute_a(prop: &str, plan: &Rc<Plan>) -> Result<Executed, String> {
         }
         v
     };
-    Ok(Executed { violations, history: h })
+    Ok(Executed { violations, history: Some(h), chistory: None })
 }
 
 #[derive(Clone, Debug, Serialize, Deserialize)]
@@ -348,10 +457,16 @@ pub fn make_replay(
         minimised_plan: min.clone(),
         original_plan: plan.clone(),
         shrink_executions: spent,
-        digest: e.history.digest(),
-        schedule: e.history.sched_trace.clone(),
-        fault_trace: fault_trace(&e.history),
-        events: e.history.events.iter().map(crate::record::Ev::short).collect(),
+        digest: e.digest(),
+        schedule: e.history.as_ref().map(|h| h.sched_trace.clone()).unwrap_or_default(),
+        fault_trace: e.history.as_ref().map(fault_trace).unwrap_or_else(|| {
+            e.chistory.as_ref().map(|c| vec![format!("stack={} slow_writer_pendings={} shape={:?}", c.stack, c.slow_pendings, c.shape)]).unwrap_or_default()
+        }),
+        events: e
+            .history
+            .as_ref()
+            .map(|h| h.events.iter().map(crate::record::Ev::short).collect())
+            .unwrap_or_else(|| e.chistory.as_ref().map(|c| c.input.iter().map(crate::record::Ev::short).collect()).unwrap_or_default()),
         gherkin: min.features.iter().map(crate::plan::FeatureSpec::gherkin).collect(),
     })
 }
